@@ -64,6 +64,31 @@ def run_tlc(module, cfg, workdir, tag, env_extra=None, workers=1, xmx="2g", time
     return rc, out
 
 
+def run_tlapm(module, workdir):
+    """Check the proofs of spec/<module>.tla with tlapm in a scratch copy (its cache is not kept)."""
+    d = os.path.join(workdir, "tlaps_" + module)
+    os.makedirs(d, exist_ok=True)
+    shutil.copy(os.path.join(SPEC, module + ".tla"), d)
+    t0 = time.time()
+    try:
+        p = subprocess.run(["tlapm", "--threads", str(min(8, NCPU)), "--cleanfp", module + ".tla"], cwd=d, stdout=subprocess.PIPE,
+                           stderr=subprocess.STDOUT, timeout=600)
+        out = p.stdout.decode("utf-8", "replace")
+    except (subprocess.TimeoutExpired, FileNotFoundError) as e:
+        out = "TIMEOUT or tlapm missing: %s" % e
+    m = re.search(r"All (\d+) obligations? proved", out)
+    f = re.search(r"(\d+)/(\d+) obligations? failed", out)
+    res = {"module": module, "wall_s": round(time.time() - t0, 1)}
+    if m:
+        res.update(obligations=int(m.group(1)), proved=int(m.group(1)), status="proved")
+    elif f:
+        res.update(obligations=int(f.group(2)), proved=int(f.group(2)) - int(f.group(1)), status="unknown (unproved obligations)")
+    else:
+        res.update(obligations=0, proved=0, status="unknown (tlapm did not finish)")
+    shutil.rmtree(d, ignore_errors=True)
+    return res
+
+
 def unquote_tlc(line):
     """PrintT of a string prints it as a TLA+ string literal."""
     line = line.strip()
@@ -254,6 +279,10 @@ def check(pid, tier, seed, replay=None):
     gen_lines, mc_gen, mc_dist = ([], 0, 0)
     if not replay:
         gen_lines, mc_gen, mc_dist = mc_phase(pid, P, tier, workdir, evx)
+    # optional TLAPS proofs of abstract-level lemmas (thorough tier; never decide the check: an unproved
+    # obligation or a time-out is recorded as "unknown", DESIGN section 8)
+    if not replay and tier == "thorough" and P.get("proofs"):
+        evx["tlaps"] = [run_tlapm(m, workdir) for m in P["proofs"]]
     gen_file = os.path.join(workdir, "gen.ndjson")
     with open(gen_file, "w") as f:
         for g in gen_lines:
@@ -382,6 +411,7 @@ def check(pid, tier, seed, replay=None):
         "rule": P["rule"],
         "samples": (summaries[0]["samples"][:6] if summaries else []),
         "model_checking": evx.get("mc", []),
+        "tlaps_proofs": evx.get("tlaps", []),
         "mc_states_distinct": mc_dist, "mc_states_generated": mc_gen,
         "trace_events": ev_counts, "trace_lines_validated": sum(r["lines"] or 0 for r in results),
         "trace_shards": len(shards), "trace_spec_stats": stat_tot,
